@@ -61,6 +61,11 @@ def setup(P):
 _counter = [0]
 
 
+def case_reset(idx):
+    # tokens are a function of the case index, so that a single case replays exactly as it ran inside its shard
+    _counter[0] = idx * 1000
+
+
 def fresh(rng):
     _counter[0] += 1
     k = _counter[0]
